@@ -286,7 +286,25 @@ def run_config(cfg):
         v = compare(nodes, comp, seams, bg, cfg, first)
         if v:
             return v
+        sibling = None
         for st in steps:
+            if st[0] == "sibling":
+                # a second branch of the (still unbound) first node, created before anything binds
+                sibling = make_node("map", [nodes[0]], seams, None, None)
+                nodes.append(sibling)
+                continue
+            if st[0] == "extend-sibling":
+                try:
+                    newc = ref_add([comp], st[1] in NEEDS_LOOP, None, None, bg)
+                    ext = make_node(st[1], [sibling], seams, None, None)
+                except Exception as e:   # noqa
+                    return ("exception", st[1], "extend-sibling-branch", dict(cfg=cfg, error=repr(e)[:200]))
+                comp = newc
+                nodes.append(ext)
+                v = compare(nodes, comp, seams, bg, cfg, st[1])
+                if v:
+                    return (v[0], v[1], "extend-sibling-branch", v[3])
+                continue
             if st[0] == "node":
                 _, kind, a, l = st
                 if kind not in ACCEPTS_KW:
@@ -298,7 +316,8 @@ def run_config(cfg):
                     want_raise = True
                 before = [observe(n, seams) for n in nodes]
                 try:
-                    n2 = make_node(kind, [nodes[-1]], seams, a, l)
+                    tip = [n for n in nodes if n is not sibling][-1]
+                    n2 = make_node(kind, [tip], seams, a, l)
                     raised = None
                 except ValueError as e:
                     raised = e
@@ -421,6 +440,13 @@ def configs(thorough):
                         for k2 in kinds:
                             for a, l in args:
                                 yield (first, A, L, (("node", k1, None, None), ("node", k2, a, l)))
+                if first == "Stream" and A is None and L is None:
+                    # branch first, bind one branch late, then extend the other branch
+                    for k in kinds:
+                        for a, l in args:
+                            for k2 in ("buffer", "map", "timed_window"):
+                                yield (first, A, L, (("sibling",), ("node", k, a, l), ("extend-sibling", k2)))
+                                yield (first, A, L, (("sibling",), ("node", "map", None, None), ("node", k, a, l), ("extend-sibling", k2)))
                 if first in ("Stream", "from_periodic"):
                     for j in JOINS:
                         for f2 in ("Stream", "from_iterable"):
